@@ -63,7 +63,24 @@ def gen_case(tape, tier):
         "n_pairs": 60 if tier == "thorough" else 12,
         "max_plans": 120 if tier == "quick" else 400,
     }
+    axes = sorted(a for a, n in w["indices"].items() if n > 1)
+    if axes and tape.coin(0.12, "fixed-indices"):
+        # every attempt (and the reference) is the same map restricted to part of one axis; requests the tree
+        # refuses (reduced axes) make the reference fail and the case is discarded
+        a = tape.pick(axes, "fixed-axis")
+        n = w["indices"][a]
+        cfg["fixed"] = {a: tape.pick([tape.choose(n, "fixed-int"), {"slice": [0, max(1, n - 1), None]}, {"slice": [1, None, None]}], "fixed-what")}
     return {"mode": "enumerate", "workload": w, "config": cfg}
+
+
+def _fixed_arg(cfg):
+    f = cfg.get("fixed")
+    if not f:
+        return None
+    return {a: (slice(*v["slice"]) if isinstance(v, dict) else v) for a, v in f.items()}
+
+
+_ABSENT = ("<absent-in-reference>",)
 
 
 def simplify(case):
@@ -88,6 +105,10 @@ def simplify(case):
     if cfg.get("preexisting"):
         c = copy.deepcopy(case)
         c["config"]["preexisting"] = False
+        yield c
+    if cfg.get("fixed"):
+        c = copy.deepcopy(case)
+        del c["config"]["fixed"]
         yield c
     if cfg.get("buffer_size"):
         c = copy.deepcopy(case)
@@ -153,6 +174,9 @@ def stored_elements(folder, w, ref):
             ok_all, key = True, None
             for o in outs:
                 exp = ref.elements[o][lin]
+                if exp is _ABSENT:
+                    ok_all = False  # not part of the (restricted) run at all
+                    break
                 got = None
                 ok, v = read(os.path.join(out_dir, o, f"__{lin}__.pickle"))
                 if ok:
@@ -185,7 +209,7 @@ def _call_key(v):
     return None
 
 
-def reference(w):
+def reference(w, fixed=None):
     import numpy as np
 
     from pipefunc.map._storage_array._base import StorageBase
@@ -195,17 +219,20 @@ def reference(w):
     try:
         with sim:
             p = build_pipeline(w)
-            res = sim.kernel.run(lambda: p.map(build_inputs(w), parallel=False, storage="dict", **map_kwargs(w)))
+            res = sim.kernel.run(lambda: p.map(build_inputs(w), parallel=False, storage="dict", fixed_indices=fixed, **map_kwargs(w)))
         ref.R0 = {o: canon(res[o].output) for o in all_outputs(w)}
         ref.calls = list(sim.calls)
         import collections
 
         ref.C0 = collections.Counter(c.key() for c in sim.calls)
         ref.elements, ref.ext_index = {}, {}
+        ref.L0 = dict(ref.R0)  # what load_outputs returns: the stored array (elements outside a restricted run are masked)
         for o in all_outputs(w):
             st = res[o].store
             if isinstance(st, StorageBase):
-                ref.elements[o] = [canon(st.get_from_index(i)) for i in range(st.size)]
+                if fixed:
+                    ref.L0[o] = canon(st.to_array())
+                ref.elements[o] = [canon(st.get_from_index(i)) if st.has_index(i) else _ABSENT for i in range(st.size)]
                 ref.ext_index[o] = [tuple(int(x) for x in np.unravel_index(i, st.shape)) for i in range(st.size)]
     except Exception as e:  # noqa: BLE001
         ref.error = e
@@ -254,7 +281,8 @@ def run_attempt(w, cfg, root, tape, *, attempt, cleanup, interruption=None, inpu
             def main():
                 try:
                     return p.map(inputs, run_folder=folder, parallel=parallel, executor=executor,
-                                 storage=C.storage_arg(cfg["storage"]), cleanup=cleanup, **map_kwargs(w))
+                                 storage=C.storage_arg(cfg["storage"]), cleanup=cleanup, fixed_indices=_fixed_arg(cfg),
+                                 **map_kwargs(w))
                 except BaseException:
                     _drain(k, fs)
                     raise
@@ -416,7 +444,7 @@ def run_plan(w, cfg, plan, ref, tape, *, seen_digests=None):
                             V("resume", f"load-after-resume-raised:{type(e).__name__}", {"plan": plan, "output": o, "exc": repr(e)[:300]},
                               _sig(e, last, fin))
                             break
-                        if got != ref.R0[o]:
+                        if got != ref.L0[o]:
                             V("resume", "loaded-differs", {"plan": plan, "output": o, "got": repr(got)[:300]}, _sig(None, last, fin))
                             break
 
@@ -487,7 +515,7 @@ def run_case(case, exec_seed=None, exec_tape=None):
     C.begin_case()
     w, cfg = case["workload"], case["config"]
     out = {"violations": [], "probes": {}, "nontrivial": [], "evaluations": 0, "yields": 0, "sim_time": 0.0}
-    ref = reference(w)
+    ref = reference(w, _fixed_arg(cfg))
     if ref.error is not None:
         out["discarded"] = True
         out["exec_tape"] = []
@@ -584,6 +612,8 @@ def run_case(case, exec_seed=None, exec_tape=None):
     probes[f"executor:{cfg['executor']['kind']}"] = 1
     if cfg.get("preexisting"):
         probes["preexisting_folder"] = 1
+    if cfg.get("fixed"):
+        probes["fixed_indices"] = 1
     out["probes"] = probes
     out["nontrivial"] = sorted(nontrivial)
     out["exec_tape"] = []
